@@ -239,6 +239,7 @@ class Domain:
 
 D_EXTRA = [0x85, 0xA0, 0x2003, 0x3000, 0x2028,      # whitespace
            0xE9, 0xC9, 0x3C9, 0x3A9,                # cased letters é É ω Ω
+           0x17F,                                   # LONG S: lower-case, upper() is ASCII 'S', casefold() is 's'
            0x663,                                   # ARABIC-INDIC DIGIT THREE
            0x20AC]                                  # euro sign
 
@@ -724,6 +725,39 @@ class SymStr:
 
     def format(self, *a, **k):
         raise Unsupported('str.format on symbolic string')
+
+    def casefold(self):
+        """str.casefold on domain D (every member folds to exactly one member character; table from
+        the running interpreter); domain U: only for characters already forced to ASCII"""
+        d = self._dom()
+        out = []
+        for c in self._self().cs:
+            if isinstance(c, int):
+                r = chr(c).casefold()
+                if len(r) != 1:
+                    raise Unsupported('casefold() changes length')
+                out.append(ord(r))
+                continue
+            if d.full:
+                if core.ENG.check(c >= 128):
+                    raise Unsupported('casefold() of a possibly non-ASCII character in domain U')
+                out.append(z3.If(z3.And(c >= 65, c <= 90), c + 32, c))
+                continue
+            tbl = d.__dict__.get('_fold')
+            if tbl is None:
+                tbl = {}
+                for m in d.members:
+                    r = chr(m).casefold()
+                    if len(r) != 1 or ord(r) not in d.members:
+                        raise Unsupported('casefold() of U+%04X leaves the domain' % m)
+                    if ord(r) != m:
+                        tbl[m] = ord(r)
+                d.__dict__['_fold'] = tbl
+            e = c
+            for src, dst in tbl.items():
+                e = z3.If(c == src, dst, e)
+            out.append(e)
+        return simp(tuple(out))
 
     def swapcase(self):
         d = self._dom()
